@@ -1454,40 +1454,37 @@ def executeYieldBlock (r : Rec) (env : Env) (nodeLoc : Loc) (block : BlockN)
       yieldBody r env block ctxE content)
   else yieldBody r env block ctxE content
 
+/-- the runtime a try body starts from: a fresh buffer (`new(bytes.Buffer)`) is the destination -/
+def tryStart (rt : RT) : RT :=
+  { rt with nbufs := rt.nbufs + 1, writer := .buf rt.nbufs,
+            sink := fun j => if j = rt.nbufs + 1 then [] else rt.sink j }
+
+/-- what the deferred functions of executeTry do to the runtime a panic left behind: the writer is
+    put back, and (the recover handler) scope, context and content are reset to their saved values -/
+def tryReset (rt rt' : RT) : RT :=
+  { rt' with writer := rt.writer, scope := rt.scope, ctx := rt.ctx, content := rt.content }
+
+/-- the catch clause: runs once, with the error bound to its variable in a scope of its own -/
+def tryCatch (r : Rec) (env : Env) (hasCatch : Bool) (catchVar : Option Bytes)
+    (catchBody : Option (List Stmt)) (errVal : Val) : M Val :=
+  if !hasCatch then pure .invalid
+  else
+    let run : M Val := match catchBody with
+      | some l => r.execList env l
+      | none => pure .invalid
+    match catchVar with
+    | some n => withNewScopeND (do letVar n errVal; run)
+    | none => run
+
 /-- `executeTry` -/
 def executeTry (r : Rec) (env : Env) (body : List Stmt) (hasCatch : Bool) (catchVar : Option Bytes)
     (catchBody : Option (List Stmt)) : M Val := fun rt =>
-  let writer := rt.writer
-  let scope := rt.scope
-  let context := rt.ctx
-  let content := rt.content
-  let bufId := rt.nbufs
-  let rt1 := { rt with nbufs := rt.nbufs + 1, writer := .buf bufId,
-                       sink := fun j => if j = bufId + 1 then [] else rt.sink j }
-  let onPanic (errVal : Val) (rt' : RT) : Res Val :=
-    -- deferred: st.Writer = writer; then the recover handler
-    let rt' := { rt' with writer := writer, scope := scope, ctx := context, content := content }
-    if !hasCatch then .ok .invalid rt'
-    else
-      let run : M Val := do
-        match catchVar with
-        | some n => do newScope; letVar n errVal
-        | none => pure ()
-        let v ← (match catchBody with
-          | some l => r.execList env l
-          | none => pure .invalid)
-        match catchVar with
-        | some _ => releaseScope
-        | none => pure ()
-        pure v
-      run rt'
-  match r.execList env body rt1 with
+  match r.execList env body (tryStart rt) with
   | .ok v rt' =>
-    let rt' := { rt' with writer := writer }
-    let buffered := rt'.sink (bufId + 1)
-    .ok v (appendTo rt' writer buffered.reverse)
-  | .err e rt' => onPanic (.errv e.located e.loc) rt'
-  | .crash _ rt' => onPanic (.opaque "runtime.Error") rt'
+    -- no panic: the buffered output is copied to the saved writer
+    .ok v (appendTo { rt' with writer := rt.writer } rt.writer (rt'.sink (rt.nbufs + 1)).reverse)
+  | .err e rt' => tryCatch r env hasCatch catchVar catchBody (.errv e.located e.loc) (tryReset rt rt')
+  | .crash _ rt' => tryCatch r env hasCatch catchVar catchBody (.opaque "runtime.Error") (tryReset rt rt')
   | .fuel => .fuel
   | .unsupported w => .unsupported w
 
@@ -1539,8 +1536,10 @@ def rangeLoop (r : Rec) (env : Env) (set : Option SetN) (keySlot valSlot : Optio
       else do
         rangeBind r env set keySlot idx
         rangeBind r env set valSlot val
-        (if valSlot.isNone then modifyRT fun rt => { rt with ctx := Val.indirectEface val } else pure ())
-        let ret ← r.execList env body
+        -- `if valVarSlot < 0 { st.context = rangeValue }`; Go puts the context back once, after the
+        -- loop; nothing can observe it between two iterations, so it is put back per iteration here
+        let ret ← (if valSlot.isNone then withCtxND (Val.indirectEface val) (r.execList env body)
+                   else r.execList env body)
         if ret.isValid then pure ret else rangeLoop r env set keySlot valSlot body els f st' false
 
 /-- everything of a range after its loop scope is set up; the context is put back afterwards
@@ -1554,9 +1553,8 @@ def rangeCore (r : Rec) (env : Env) (loc : Loc) (set : Option SetN) (expression 
   -- all modelled rangers provide an index
   let keySlot : Option Nat := if set.isSome then some 0 else none
   let valSlot : Option Nat := if set.isSome && nLeft > 1 then some 1 else none
-  let rt ← getRT
   -- Go's loop shape: Range() is called once more after a body that returned; unobservable here
-  withCtxND rt.ctx (rangeLoop r env set keySlot valSlot body els 100000 rg true)
+  rangeLoop r env set keySlot valSlot body els 100000 rg true
 
 /-- the `NodeRange` case of executeList -/
 def execRange (r : Rec) (env : Env) (loc : Loc) (set : Option SetN) (e : Option Expr)
@@ -1576,6 +1574,72 @@ def execRange (r : Rec) (env : Env) (loc : Loc) (set : Option SetN) (e : Option 
       rangeCore r env loc set v body els
     | none => crash "nil expression in range"
 
+/-- the assignment part of an action; the first `:=` of a list opens the list's let-scope
+    (`st.newScope(); inNewScope = true; defer st.releaseScope()`).  Returns the new `inNewScope`. -/
+def actionSet (r : Rec) (env : Env) (inNewScope : Bool) (set : Option SetN) : M Bool :=
+  match set with
+  | some st =>
+    if st.isLet then
+      if !inNewScope then do newScope; executeAssign r env st; pure true
+      else do executeAssign r env st; pure true
+    else do executeAssign r env st; pure inNewScope
+  | none => pure inNewScope
+
+/-- the pipeline part of an action: evaluate and render -/
+def actionPipe (r : Rec) (env : Env) (pipe : Option Pipe) : M Unit :=
+  match pipe with
+  | some p => do
+    let (v, safeWriter) ← evalPipeline r env p
+    if !safeWriter && v.isValid then
+      match v with
+      | .hidden _ => pure ()        -- Renderer that renders nothing
+      | .opaque _ => unsupported "print opaque"
+      | _ => printEscaped env v
+  | none => pure ()
+
+/-- the two branches of an if: exactly one list is executed (or none, without else) -/
+def ifBranches (r : Rec) (env : Env) (cond : Expr) (thn : List Stmt) (els : Option (List Stmt)) : M Val := do
+  let cv ← r.evalExpr env cond
+  let t ← liftOpt "isTrue" (Val.isTrue cv)
+  if t then r.execList env thn
+  else match els with
+    | some l => r.execList env l
+    | none => pure .invalid
+
+/-- the `NodeIf` case of executeList -/
+def execIf (r : Rec) (env : Env) (set : Option SetN) (cond : Expr) (thn : List Stmt)
+    (els : Option (List Stmt)) : M Val :=
+  match set with
+  | some st =>
+    if st.isLet then withNewScopeND (do executeAssign r env st; ifBranches r env cond thn els)
+    else do executeAssign r env st; ifBranches r env cond thn els
+  | none => ifBranches r env cond thn els
+
+/-- the `NodeYield` case of executeList -/
+def execYield (r : Rec) (env : Env) (loc : Loc) (name : Bytes) (params : Option (List Param))
+    (ctxE : Option Expr) (content : Option (List Stmt)) (isContent : Bool) : M Unit :=
+  if isContent then do
+    let rt ← getRT
+    match rt.content with
+    | some c => invokeContent r env c ctxE
+    | none => pure ()
+  else do
+    match ← getBlock name with
+    | none => errAt loc "unresolved block"
+    | some blk =>
+      match params with
+      | none => crash "nil pointer dereference (yield without parameter list)"
+      | some ps => executeYieldBlock r env loc blk blk.params ps ctxE content
+
+/-- the `NodeBlock` case of executeList: the most-derived definition of that name is rendered -/
+def execBlock (r : Rec) (env : Env) (loc : Loc) (name : Bytes) (params : List Param)
+    (ctxE : Option Expr) (body : List Stmt) (content : Option (List Stmt)) : M Unit := do
+  match ← getBlock name with
+  | some blk => executeYieldBlock r env blk.loc blk blk.params blk.params blk.ctx blk.content
+  | none =>
+    let blk : BlockN := { loc := loc, name := name, params := params, ctx := ctxE, body := body, content := content }
+    executeYieldBlock r env blk.loc blk blk.params blk.params blk.ctx blk.content
+
 /-- one statement of `executeList`; returns the value of a `return` it executed (invalid if none)
     and whether the list opened its let-scope -/
 def execStmt (r : Rec) (env : Env) (inNewScope : Bool) (s : Stmt) : M (Val × Val × Bool) :=
@@ -1584,37 +1648,11 @@ def execStmt (r : Rec) (env : Env) (inNewScope : Bool) (s : Stmt) : M (Val × Va
   match s with
   | .text _ bts => do writeLit bts; pure (.invalid, .invalid, inNewScope)
   | .action _ set pipe => do
-    let ins ← (match set with
-      | some st =>
-        if st.isLet then do
-          (if !inNewScope then newScope else pure ())
-          executeAssign r env st
-          pure true
-        else do executeAssign r env st; pure inNewScope
-      | none => pure inNewScope)
-    match pipe with
-    | some p => do
-      let (v, safeWriter) ← evalPipeline r env p
-      if !safeWriter && v.isValid then
-        match v with
-        | .hidden _ => pure ()        -- Renderer that renders nothing
-        | .opaque _ => unsupported "print opaque"
-        | _ => printEscaped env v
-      pure (.invalid, .invalid, ins)
-    | none => pure (.invalid, .invalid, ins)
+    let ins ← actionSet r env inNewScope set
+    actionPipe r env pipe
+    pure (.invalid, .invalid, ins)
   | .ifS _ set cond thn els => do
-    let branches : M Val := do
-      let cv ← r.evalExpr env cond
-      let t ← liftOpt "isTrue" (Val.isTrue cv)
-      if t then r.execList env thn
-      else match els with
-        | some l => r.execList env l
-        | none => pure .invalid
-    let ret ← (match set with
-      | some st =>
-        if st.isLet then withNewScopeND (do executeAssign r env st; branches)
-        else do executeAssign r env st; branches
-      | none => branches)
+    let ret ← execIf r env set cond thn els
     pure (ret, .invalid, inNewScope)
   | .rangeS loc set e body els => do
     let ret ← execRange r env loc set e body els
@@ -1623,27 +1661,10 @@ def execStmt (r : Rec) (env : Env) (inNewScope : Bool) (s : Stmt) : M (Val × Va
     let ret ← executeTry r env body hasCatch cv cb
     pure (ret, .invalid, inNewScope)
   | .yield loc name params ctxE content isContent => do
-    if isContent then
-      let rt ← getRT
-      match rt.content with
-      | some c => invokeContent r env c ctxE
-      | none => pure ()
-      pure (.invalid, .invalid, inNewScope)
-    else
-      match ← getBlock name with
-      | none => errAt loc "unresolved block"
-      | some blk =>
-        match params with
-        | none => crash "nil pointer dereference (yield without parameter list)"
-        | some ps => do
-          executeYieldBlock r env loc blk blk.params ps ctxE content
-          pure (.invalid, .invalid, inNewScope)
+    execYield r env loc name params ctxE content isContent
+    pure (.invalid, .invalid, inNewScope)
   | .block loc name params ctxE body content => do
-    let blk ← (do
-      match ← getBlock name with
-      | some x => pure x
-      | none => pure { loc := loc, name := name, params := params, ctx := ctxE, body := body, content := content : BlockN })
-    executeYieldBlock r env blk.loc blk blk.params blk.params blk.ctx blk.content
+    execBlock r env loc name params ctxE body content
     pure (.invalid, .invalid, inNewScope)
   | .include loc nameE ctxE => do
     let ret ← executeInclude r env loc nameE ctxE
